@@ -6,6 +6,7 @@ import (
 	"crypto/ecdsa"
 	"errors"
 	"math"
+	"slices"
 	"sync"
 	"sync/atomic"
 	"time"
@@ -101,9 +102,10 @@ func (c *chain) ServerInContainer(cid.ID) (bool, error)          { return true, 
 func (c *chain) HasUserInNNS(string, util.Uint160) (bool, error) { return false, nil }
 
 // InvokeContainedScript "runs" an N3 witness: accepted iff the script starts
-// with N3OKScript. Logged as the signature-verification check.
+// with N3OKScript followed by the first 8 bytes of the signed data hash. Logged as the signature-verification check.
 func (c *chain) InvokeContainedScript(tx *transaction.Transaction, _ *block.Header, _ *trigger.Type, _ *bool) (*result.Invoke, error) {
-	ok := bytes.HasPrefix(tx.Script, N3OKScript)
+	h := tx.Hash().BytesBE()
+	ok := bytes.HasPrefix(tx.Script, append(slices.Clone(N3OKScript), h[:8]...))
 	c.log.Add(KindCheck, "sig-n3", ok)
 	return &result.Invoke{State: "HALT", Stack: []stackitem.Item{stackitem.NewBool(ok)}}, nil
 }
